@@ -449,6 +449,14 @@ class Model:
                     return k.methods[e.id]
                 if isinstance(e, ast.Name) and e.id in k.module.functions:
                     return k.module.functions[e.id]      # a module-level function used as a method:  getElementsByTagName = _getElementsByTagName
+                if isinstance(e, (ast.Name, ast.Attribute)):
+                    r = self.resolve_expr(k, e)           # ... the function may live in another module (imported, or module.function)
+                    if isinstance(r, FunctionInfo):
+                        return r
+                if isinstance(e, ast.Call) and ast.unparse(e.func) == 'property' and e.args and isinstance(e.args[0], (ast.Name, ast.Attribute)):
+                    r = self.resolve_expr(k, e.args[0])   # name = property(getter)
+                    if isinstance(r, FunctionInfo):
+                        return r
                 return None
         return None
 
